@@ -92,6 +92,7 @@ static void *v_memmove(void *dst, const void *src, size_t n)
 #define OP_SETNINT_VETO 10 /* cfg_setnint() by name with a pre-set validation callback */
 #define OP_SETNSTR_VETO 11 /* cfg_setnstr() by name, value a string or NULL, index symbolic */
 #define OP_SETNFLOAT_VETO 12 /* cfg_setnfloat() by name, index symbolic */
+#define OP_SIMPLE_SET 13 /* integer setters on a "simple" option (value lives in the application's variable) */
 
 #ifndef NV
 #define NV 1
@@ -296,12 +297,32 @@ static int veto_cb(cfg_t *cfg, cfg_opt_t *opt, void *value)
 }
 #endif
 
+#if OP == OP_SIMPLE_SET
+static long simple_num;
+#endif
+
 int main(void)
 {
 	unsigned i;
 	int rc;
 
 	build();
+#if OP == OP_SIMPLE_SET
+	{
+		V_IN_LONG(vin_old);
+		V_IN_LONG(vin_new);
+		V_IN_BOOL(vin_byname);
+
+		simple_num = vin_old;
+		O->simple_value.number = &simple_num;
+		O->flags &= ~CFGF_MODIFIED;
+		rc = vin_byname ? cfg_setint(&root, "o", vin_new) : cfg_opt_setnint(O, vin_new, 0);
+		A09(rc == CFG_SUCCESS && simple_num == vin_new && cfg_opt_getnint(O, 0) == vin_new && cfg_getint(&root, "o") == vin_new, "[C09] a setter on a simple option stores the value where the getter (and the application) reads it");
+		A09((O->flags & CFGF_MODIFIED) != 0, "[C09] a successful setter marks the option modified (simple options included)");
+		A09(O->nvalues == NV, "[C09] a simple option grows no value cells");
+		V_WITNESS("applied");
+	}
+#endif
 
 #if OP == OP_SETN
 	{
@@ -581,7 +602,11 @@ int main(void)
 		veto_do_rewrite = vin_rewrite;
 		veto_rewrite = vin_rewritten;
 		O->validcb2 = veto_cb;
+#ifdef VIA_WRAPPER
+		rc = cfg_setint(&root, "o", vin_new); /* the index-less spelling of the same update */
+#else
 		rc = cfg_setnint(&root, "o", vin_new, 0);
+#endif
 		A14(n_veto == 1, "[C14] the pre-set validation callback runs once per by-name set");
 		A14(veto_seen == vin_new, "[C14] the pre-set validation callback sees the value about to be set");
 		if (vin_veto_rc != 0) {
@@ -605,7 +630,12 @@ int main(void)
 		V_ASSUME(vin_idx <= NV + 1);
 		veto_rc = vin_veto_rc;
 		O->validcb2 = veto_cb;
+#ifdef VIA_WRAPPER
+		V_ASSUME(vin_idx == 0);
+		rc = cfg_setstr(&root, "o", arg);
+#else
 		rc = cfg_setnstr(&root, "o", arg, vin_idx);
+#endif
 		A14(n_veto == 1 && veto_seen == (const void *)arg, "[C14] the pre-set validation callback runs once per by-name set and sees the value about to be set (string setter, NULL included)");
 		if (vin_veto_rc != 0) {
 			A10(rc == CFG_FAIL, "[C10] a string setter vetoed by its validation callback fails");
@@ -625,7 +655,12 @@ int main(void)
 		V_ASSUME(vin_idx <= NV + 1);
 		veto_rc = vin_veto_rc;
 		O->validcb2 = veto_cb;
+#ifdef VIA_WRAPPER
+		V_ASSUME(vin_idx == 0);
+		rc = cfg_setfloat(&root, "o", arg);
+#else
 		rc = cfg_setnfloat(&root, "o", arg, vin_idx);
+#endif
 		A14(n_veto == 1 && veto_seen != NULL, "[C14] the pre-set validation callback runs once per by-name set (float setter)");
 		if (vin_veto_rc != 0) {
 			A10(rc == CFG_FAIL, "[C10] a float setter vetoed by its validation callback fails");
